@@ -36,7 +36,7 @@ class Spec:
 
 def main():
     tier = sys.argv[1] if len(sys.argv) > 1 else 'quick'
-    writes = 2 if tier != 'thorough' else 3
+    writes = 2
     wbytes = 1 if tier != 'thorough' else 2
     out = '/tmp/vx_ts_C19_%d.json' % os.getpid()
     r = subprocess.run(['/verif/bin/vx', 'extract', 'C19', '-setup', 'S_progress', '-param', 'writes=%d' % writes, '-param', 'wbytes=%d' % wbytes, '-o', out], capture_output=True, text=True)
